@@ -151,11 +151,15 @@ func runConc(c concIn) *concOut {
 	w := newWorld(c.Backend, c.Nodes, time.Hour, false)
 	defer w.close()
 	for _, o := range c.Setup {
-		if arg(o, 0) == thStConnect { // runtime-state setup: ConnectClient(x, n, c) through an ungated cloud control
+		if k := arg(o, 0); k == thStConnect || k == thStDisc { // runtime-state setup through an ungated cloud control
 			cfg := managers.DefaultConfig()
 			cfg.NodeID = nodeName(arg(o, 1))
 			cloud := factories.NewBuiltinCloudControlWithStorageAndServices(w.ctx, cfg, w.st[arg(o, 1)])
-			_ = cloud.ConnectClient(int64(arg(o, 3)), nodeName(arg(o, 1)), connName(arg(o, 2)), "198.51.100.7", "tcp", "V3")
+			if k == thStConnect {
+				_ = cloud.ConnectClient(int64(arg(o, 3)), nodeName(arg(o, 1)), connName(arg(o, 2)), "198.51.100.7", "tcp", "V3")
+			} else { // a matched delete: leaves the short-lived tombstone
+				_, _ = cloud.DisconnectClientIfMatch(int64(arg(o, 3)), nodeName(arg(o, 1)), connName(arg(o, 2)))
+			}
 			continue
 		}
 		w.apply(o, nil)
@@ -339,7 +343,18 @@ func statePredicate(c concIn, out *concOut) {
 			out.Checked++
 			if row[xi] != want {
 				key := "race-state-other"
+				absentAtStart := true // the phase starts from an absent record or a tombstone: the heartbeat REBUILDS
+				for _, o := range c.Setup {
+					if arg(o, 0) == thStConnect && arg(o, 3) == x {
+						absentAtStart = false
+					}
+					if arg(o, 0) == thStDisc && arg(o, 3) == x {
+						absentAtStart = true
+					}
+				}
 				switch {
+				case kinds[thStEnsure] && !kinds[thStDisc] && absentAtStart:
+					key = "race-state-rebuild-window"
 				case kinds[thStDisc] && !kinds[thStEnsure]:
 					key = "race-state-disconnect-read-delete-window"
 				case kinds[thStEnsure] && !kinds[thStDisc]:
